@@ -466,7 +466,7 @@ def run_point(ctx, fp, reg, seed, kind, opname, k):
         raise
     if w.bdd.configure()['reordering'] is not True:
         raise Violation(site, 'reordering-left-disabled', info)
-    if w.raw._reordering_context:
+    if getattr(w.raw, '_reordering_context', False):
         raise Violation(site, 'nesting-flag-left-set', info)
     w.keep = None
     fn = make = None     # closures may hold Function handles
